@@ -254,13 +254,13 @@ func runGate(r *refRun, sc *CScen) {
 // ---- C15 (c): concurrent workload for the race detector (harness built with -race) ------------------
 
 type StressScen struct {
-	ID      string  `json:"id"`
-	Cfgs    []RCfg  `json:"cfgs"`    // configurations the reloader cycles through
+	ID      string    `json:"id"`
+	Cfgs    []RCfg    `json:"cfgs"`    // configurations the reloader cycles through
 	Clients [][]RStep `json:"clients"` // per client connection: its packets
-	Addr    string  `json:"addr"`
-	Reloads int     `json:"reloads"`
-	Rounds  int     `json:"rounds"`
-	Churn   int     `json:"churn"` // server lifetimes cancelled while connections keep arriving
+	Addr    string    `json:"addr"`
+	Reloads int       `json:"reloads"`
+	Rounds  int       `json:"rounds"`
+	Churn   int       `json:"churn"` // server lifetimes cancelled while connections keep arriving
 }
 
 func cmdConcStress(args []string) {
